@@ -797,7 +797,7 @@ func (g *gen) stepRandom() {
 					}
 					for _, cm := range ch.Consumers {
 						if cm.Status != 1 {
-							cands = append(cands, [2]string{cm.Queue, cm.Tag})
+							cands = append(cands, [2]string{cm.Queue, g.s.canon(cm.Tag)})
 						}
 					}
 				}
@@ -809,12 +809,15 @@ func (g *gen) stepRandom() {
 				tag = []string{"ta", "tb"}[g.r.Intn(2)]
 			}
 		}
+		if g.r.Chance(1, 9) {
+			tag = "-" // let the server name the consumer
+		}
 		g.do(fmt.Sprintf("CONS %d %d %s %s %s %s %s", c, h, q, tag, g.b(1, 4), g.b(1, 10), g.b(1, 10)))
 	case k < 590: // cancel
 		ch := chanSnap(sn, c, h)
 		tag := "tx"
 		if ch != nil && len(ch.Consumers) > 0 && g.r.Chance(14, 15) {
-			tag = ch.Consumers[g.r.Intn(len(ch.Consumers))].Tag
+			tag = g.s.canon(ch.Consumers[g.r.Intn(len(ch.Consumers))].Tag)
 		} else if g.r.Chance(4, 5) {
 			return
 		}
